@@ -16,7 +16,7 @@ ID = 'C05'
 LEVEL = 'exploration'
 RULE = ('Engine A: lattice of pre-test pairs (x, y): n in {4,5,6,8,12} x 5 control shapes x noise patterns (pairs with zero '
         'residual variance dropped by the reference model and counted) x n_test in {1,2,5} x sig in {0.8,0.9,0.95} x power '
-        'in {0.6,0.8,0.9} x flevel in {0.9,0.99} (quick: a 12-point parameter sub-grid), plus parameter objects that differ in fields the formula must ignore (n_pretest_max smaller than the series, iroas, rho_max, min_corr, n_designs, n_geos_max), plus PRESENTATIONS of the same numbers (integer-dtype y with half-integer x, integer x with half-integer y, both integer, lists, pandas Series); on float arrays the caller OVERWRITES his own buffers after handing them in and before the first read. Oracle: (1) design-side required '
+        'in {0.6,0.8,0.9} x flevel in {0.9,0.99} (quick: the full 54-point parameter grid for noise pattern 0, a 12-point sub-grid for pattern 1), plus parameter objects that differ in fields the formula must ignore (n_pretest_max smaller than the series, iroas, rho_max, min_corr, n_designs, n_geos_max), plus PRESENTATIONS of the same numbers (integer-dtype y with half-integer x, integer x with half-integer y, both integer, lists, pandas Series); on float arrays the caller OVERWRITES his own buffers after handing them in and before the first read. Oracle: (1) design-side required '
         'impact == closed form (t_sig + t_pow) * n_test * sigma * sqrt(phi (n+1)/(n n_test (n-1)) + 1/n + 1/n_test); (2) two '
         'real code paths against each other: an experiment frame whose test-period control mean is displaced by dx = '
         'sqrt(phi (n+1) Sxx / (n n_test (n-1))) and whose treatment shows exactly lift = required impact is analysed by '
@@ -37,7 +37,7 @@ def cases(tier, seed):
         for sh in frames.SHAPES:
             for noise in ((0, 1, 2, 3) if tier == 'thorough' else (0, 1)):
                 for amp in (1, 3):
-                    for par in (PARAMS_ALL if tier == 'thorough' else PARAMS_Q):
+                    for par in (PARAMS_ALL if (tier == 'thorough' or noise == 0) else PARAMS_Q):
                         out.append({'n': n, 'shape': sh, 'noise': noise, 'amp': amp, 'seed': seed, 'par': par})
                     # the series handed to the diagnostics object is what counts: other parameter fields (a small
                     # n_pretest_max, iroas, min_corr, rho_max, n_designs ...) must not enter the required impact
